@@ -52,6 +52,8 @@ const CONTEXTS: &[(char, &str, char)] = &[
     ('S', "%let b=\"{}\";", 'Q'),
     ('S', "%let {}=1;", 'V'),
     ('S', "%global {}~;", 'V'),
+    ('S', "%local~/~readonly ~{}~=~1~;", 'V'),
+    ('S', "%global /~readonly {}=a b;", 'V'),
     ('T', "%eval~(~{}~)", 'E'),
     ('T', "%sysevalf~(~{}~)", 'F'),
     ('T', "%sysevalf({}~,~ceil)", 'F'),
@@ -103,6 +105,9 @@ const LEAVES: &[(char, &[&str])] = &[
             "x=1;", "%put a;", "%let a=1;", "* c;", "/*c*/", "%m;", "%m(1)", "run;", "%return;", "%local a b;",
             "%goto l;", "datalines;\n1 2\n;", "* it's c;", "x='a''b' \"c;d\";", "format x $char8. y 8.2;",
             "%put %str(;) %nrstr(%mend;);",
+            // statement-options text directly followed by a quoted literal that contains ';' '=' '/'
+            "%* \"it's\" c;", "%* 'a\"b';",
+            "%global a'b;c';", "%symdel a'b=c/d;e' / nowarn;", "%macro q(p) / des=x'a;b=c' store; %mend;", "%local a\"b;c\";",
             // a lone '%' at the end of a text segment of a statement value
             "%put &v%;", "%let a=50%;", "%put 'a'%;", "%let b=&v%\n;", "%put %m()% a;",
         ],
@@ -118,7 +123,7 @@ const LEAVES: &[(char, &[&str])] = &[
         'V',
         &[
             "a", "&v", "&&v&i", "a&i", "v2345678901234567890123456789012", "%m()", "%m()1", "a%m()", "%sysfunc(f())", "%sysfunc(f())9",
-            "%m()&v", "%m&v", "%m%n()", "%m&v.x",
+            "%m()&v", "%m&v", "%m%n()", "%m&v.x", "%m", "%m%n",
         ],
     ),
 ];
@@ -878,6 +883,13 @@ fn c13_items(tier: Tier) -> Vec<Vec<Piece>> {
                 pcs.push(other(";"));
                 items.push(pcs);
             }
+            // the same call inside a '*' statement of a macro definition (not a comment there)
+            if h.head == "%m" && args.len() <= 2 {
+                let mut pcs = vec![other("%macro q; * ")];
+                pcs.extend(build_call(h.head, h.model, &args, "", h.hidden));
+                pcs.push(other("; %mend;"));
+                items.push(pcs);
+            }
         }
     }
     // definitions
@@ -890,7 +902,7 @@ fn c13_items(tier: Tier) -> Vec<Vec<Piece>> {
     let shapes = value_shapes();
     for (si, (shape, _)) in shapes.iter().enumerate() {
         for f in fillers {
-            for head in ["%scan", "%qscan", "%kscan"] {
+            for head in ["%scan", "%qscan", "%kscan", "%qkscan"] {
                 // %scan(value, 1, value [, value])
                 for extra in 0..=(if q { 0 } else { 1 }) {
                     let mut v = vec![other("%put "), other(head), gap(f), delim("(", T::LPAREN), gap(f)];
@@ -911,7 +923,7 @@ fn c13_items(tier: Tier) -> Vec<Vec<Piece>> {
                     items.push(v);
                 }
             }
-            for head in ["%substr", "%qsubstr"] {
+            for head in ["%substr", "%qsubstr", "%ksubstr", "%qksubstr"] {
                 let mut v = vec![other("%put "), other(head), gap(f), delim("(", T::LPAREN), gap(f)];
                 v.extend(shape.iter().cloned());
                 v.push(delim(",", T::COMMA));
@@ -1037,6 +1049,30 @@ fn c13_items(tier: Tier) -> Vec<Vec<Piece>> {
                         }
                     }
                 }
+            }
+        }
+    }
+    // an expression built-in with a parenthesised group nested inside another macro expression:
+    // the group's level belongs to the inner expression
+    for (wp, ws) in [("%put %eval(", ");"), ("%if ", "=a %then %put b;"), ("%put %sysfunc(f(", "));"), ("%do i=1 %to ", "; %end;"), ("%put %eval(1+", ");")] {
+        for f in fillers {
+            for (head, tail_int) in [("%substr", true), ("%qsubstr", true), ("%scan", false)] {
+                let mut v = vec![other(wp), other(head), delim("(", T::LPAREN), gap(f), other("ab"), delim(",", T::COMMA), gap(f)];
+                v.push(p("(", Kind::Op(T::LPAREN)));
+                v.push(p("1", Kind::Int(1)));
+                v.push(p(")", Kind::Op(T::RPAREN)));
+                v.push(gap(f));
+                if tail_int {
+                    v.push(delim(",", T::COMMA));
+                    v.push(gap(f));
+                    v.push(p("1", Kind::Int(1)));
+                } else {
+                    v.push(delim(",", T::COMMA));
+                    v.push(other("b"));
+                }
+                v.push(delim(")", T::RPAREN));
+                v.push(other(ws));
+                items.push(v);
             }
         }
     }
@@ -1221,6 +1257,10 @@ fn c14_items(tier: Tier) -> Vec<Deletion> {
                     add("while-semi", format!("%do %while(&i<3){f}"), format!("{alias}{fo} %end;"), E::MissingExpectedSemiOrEOF, T::SEMI, None, allowed_tail);
                 }
             }
+            // the omitted delimiter directly followed by the ';' of the statement
+            add("copy-slash", format!("%copy m{f}"), format!(";{fo}"), E::MissingExpectedFSlash, T::FSLASH, None, vec![]);
+            add("let-assign", format!("%let n{f}"), format!(";{fo}"), E::MissingExpectedAssign, T::ASSIGN, None, vec![]);
+            add("local-readonly-assign", format!("%local / readonly n{f}"), format!(";{fo}"), E::MissingExpectedAssign, T::ASSIGN, None, vec![]);
             add(
                 "copy-slash",
                 format!("%copy m{}", if f.contains(char::is_whitespace) { (*f).to_string() } else { format!(" {f}") }),
